@@ -3,6 +3,7 @@
 package saml
 
 import (
+	"crypto/x509"
 	"bytes"
 	"compress/flate"
 	"github.com/beevik/etree"
@@ -90,4 +91,23 @@ func verifDeflate(b []byte) []byte {
 		panic(err)
 	}
 	return buf.Bytes()
+}
+
+func verifSignedBy(el *etree.Element, kind int, id int) bool {
+	store := dsig.MemoryX509CertificateStore{Roots: []*x509.Certificate{verifTestCert(kind, id)}}
+	vc := dsig.NewDefaultValidationContext(&store)
+	vc.IdAttribute = "ID"
+	// validate a re-parsed copy, as a receiver would
+	doc := etree.NewDocument()
+	doc.SetRoot(el.Copy())
+	b, err := doc.WriteToBytes()
+	if err != nil {
+		return false
+	}
+	doc2 := etree.NewDocument()
+	if err := doc2.ReadFromBytes(b); err != nil {
+		return false
+	}
+	_, err = vc.Validate(doc2.Root())
+	return err == nil
 }
